@@ -365,25 +365,26 @@ Proof. unfold body_ok. intros H. apply Forall_map. eapply Forall_impl; [|exact H
 Lemma hunks_ok_reverse hs : Forall (fun h => body_ok (body h)) hs -> Forall (fun h => body_ok (body h)) (map reverse_hunk hs).
 Proof. intros H. apply Forall_map. eapply Forall_impl; [|exact H]. intros h Hh. apply body_ok_reverse. exact Hh. Qed.
 
-Lemma apply_first_sim p hs s x s' :
+Lemma apply_first_sim p hs s x s' q :
   out_rel s x -> Forall (fun h => body_ok (body h)) hs ->
-  apply_first o p f s hs = Ok s' ->
-  exists x', apply_first (no_define o) p f (with_out s x) hs = Ok (with_out s' x') /\ out_rel s' x'.
+  apply_first o p f s hs = Ok (s', q) ->
+  exists x', apply_first (no_define o) p f (with_out s x) hs = Ok (with_out s' x', q) /\ out_rel s' x'.
 Proof.
   intros R Hb. destruct hs as [|h r]; cbn [apply_first].
-  - intros [= <-]. exists x. split; [reflexivity|exact R].
+  - intros [= <- <-]. exists x. split; [reflexivity|exact R].
   - inversion Hb as [|? ? Hh Hr]; subst.
     set (loc := locate_for p f h (ignore_whitespace o) (a_offerr s) (max_fuzz o) (a_ln s)).
     change (locate_for p f h (ignore_whitespace (no_define o)) (a_offerr (with_out s x)) (max_fuzz (no_define o)) (a_ln (with_out s x))) with loc.
     change (should_check_if_patch_is_reversed loc (no_define o)) with (should_check_if_patch_is_reversed loc o).
-    assert (Plain : forall s0 x0 h0 loc0 r0 k, out_rel s0 x0 -> body_ok (body h0) -> Forall (fun h => body_ok (body h)) r0 ->
+    assert (Plain : forall p s0 x0 h0 loc0 r0 k, out_rel s0 x0 -> body_ok (body h0) -> Forall (fun h => body_ok (body h)) r0 ->
                (forall l, loc0 = Some l -> a_ln s0 <= lline l) ->
-               (do s1 <- apply_one o p f 0 s0 h0 loc0; apply_rest o p f k s1 r0) = Ok s' ->
-               exists x', (do s1 <- apply_one (no_define o) p f 0 (with_out s0 x0) h0 loc0; apply_rest (no_define o) p f k s1 r0) = Ok (with_out s' x') /\ out_rel s' x').
-    { intros s0 x0 h0 loc0 r0 k R0 Hh0 Hr0 Hle.
-      destruct (apply_one o p f 0 s0 h0 loc0) as [s1|ex] eqn:E1; cbn [rbind]; [|discriminate]. intros E2.
-      destruct (apply_one_sim p 0 s0 x0 h0 loc0 s1 R0 Hh0 Hle E1) as (x1 & E1' & R1). rewrite E1'. cbn [rbind].
-      apply (apply_rest_sim p _ _ _ _ _ R1 Hr0 E2). }
+               with_patch p (do s1 <- apply_one o p f 0 s0 h0 loc0; apply_rest o p f k s1 r0) = Ok (s', q) ->
+               exists x', with_patch p (do s1 <- apply_one (no_define o) p f 0 (with_out s0 x0) h0 loc0; apply_rest (no_define o) p f k s1 r0) = Ok (with_out s' x', q) /\ out_rel s' x').
+    { clear loc. intros p0 s0 x0 h0 loc0 r0 k R0 Hh0 Hr0 Hle. unfold with_patch.
+      destruct (apply_one o p0 f 0 s0 h0 loc0) as [s1|ex] eqn:E1; cbn [rbind]; [|discriminate].
+      destruct (apply_rest o p0 f k s1 r0) as [s2|ex] eqn:E2; cbn [rbind]; [|discriminate]. intros [= -> <-].
+      destruct (apply_one_sim p0 0 s0 x0 h0 loc0 s1 R0 Hh0 Hle E1) as (x1 & E1' & R1). rewrite E1'. cbn [rbind].
+      destruct (apply_rest_sim p0 _ _ _ _ _ R1 Hr0 E2) as (x2 & E2' & R2). rewrite E2'. cbn [rbind]. exists x2. split; [reflexivity|exact R2]. }
     destruct (should_check_if_patch_is_reversed loc o).
     + set (rloc := locate_hunk f (reverse_hunk h) (ignore_whitespace o) (a_offerr s) (max_fuzz o) (a_ln s)).
       change (locate_hunk f (reverse_hunk h) (ignore_whitespace (no_define o)) (a_offerr (with_out s x)) (max_fuzz (no_define o)) (a_ln (with_out s x))) with rloc.
@@ -391,13 +392,13 @@ Proof.
       destruct (if loc_perfect rloc || negb (loc_found loc) && loc_found rloc then handle_probably_reversed_patch o else Ok ([], RHApplyAnyway)) as [dd|ex];
         cbn [rbind]; [|discriminate].
       destruct (snd dd).
-      * apply (Plain (mkAS (a_out s) (a_rej s) (a_rejected s) (a_ln s) (a_o2n s) (a_offerr s) (a_skip s) (a_perfect s) (a_msgs s ++ fst dd) (a_hunks s)) x
+      * apply (Plain (reverse_patch p) (mkAS (a_out s) (a_rej s) (a_rejected s) (a_ln s) (a_o2n s) (a_offerr s) (a_skip s) (a_perfect s) (a_msgs s ++ fst dd) (a_hunks s)) x
                        (reverse_hunk h) rloc);
           [exact R|apply body_ok_reverse; exact Hh|apply hunks_ok_reverse; exact Hr|].
         intros l Hl. eapply locate_cursor_le. exact Hl.
-      * apply (Plain (mkAS (a_out s) (a_rej s) (a_rejected s) (a_ln s) (a_o2n s) (a_offerr s) true (a_perfect s) (a_msgs s ++ fst dd) (a_hunks s)) x);
+      * apply (Plain p (mkAS (a_out s) (a_rej s) (a_rejected s) (a_ln s) (a_o2n s) (a_offerr s) true (a_perfect s) (a_msgs s ++ fst dd) (a_hunks s)) x);
           [exact R|exact Hh|exact Hr|]. intros l Hl. eapply cursor_le. exact Hl.
-      * apply (Plain (mkAS (a_out s) (a_rej s) (a_rejected s) (a_ln s) (a_o2n s) (a_offerr s) (a_skip s) (a_perfect s) (a_msgs s ++ fst dd) (a_hunks s)) x);
+      * apply (Plain p (mkAS (a_out s) (a_rej s) (a_rejected s) (a_ln s) (a_o2n s) (a_offerr s) (a_skip s) (a_perfect s) (a_msgs s ++ fst dd) (a_hunks s)) x);
           [exact R|exact Hh|exact Hr|]. intros l Hl. eapply cursor_le. exact Hl.
     + apply Plain; [exact R|exact Hh|exact Hr|]. intros l Hl. eapply cursor_le. exact Hl.
 Qed.
@@ -422,11 +423,11 @@ Proof.
   assert (Hb1 : Forall (fun h => body_ok (define_macro o) (body h)) (hunks p1)).
   { unfold p1. destruct (reverse_patch_opt o); [|exact Hb]. cbn [reverse_patch hunks]. apply hunks_ok_reverse. exact Hb. }
   set (s0 := mkAS [] [] 0 0 0%Z 0%Z false true [] []).
-  destruct (apply_first o p1 f s0 (hunks p1)) as [s|ex] eqn:E; cbn [rbind]; [|discriminate].
+  destruct (apply_first o p1 f s0 (hunks p1)) as [[s q]|ex] eqn:E; cbn [rbind]; [|discriminate].
   intros [= <-].
   assert (R0 : out_rel (define_macro o) f s0 []) by (split; reflexivity).
-  destruct (apply_first_sim (define_macro o) f Hf o eq_refl Hne p1 (hunks p1) s0 [] s R0 Hb1 E) as (x' & E' & [Rt Rf]).
-  change (with_out s0 []) with s0 in E'. rewrite E'. cbn [rbind].
+  destruct (apply_first_sim (define_macro o) f Hf o eq_refl Hne p1 (hunks p1) s0 [] s q R0 Hb1 E) as (x' & E' & [Rt Rf]).
+  change (with_out s0 []) with s0 in E'. rewrite E'. cbn [rbind fst snd].
   eexists. split; [reflexivity|]. cbn [r_out r_failed r_rej r_msgs r_skipped with_out a_out a_ln a_rej a_rejected a_msgs a_skip].
   assert (Pl : forall d, cpp_run (define_macro o) d [] (skipn (a_ln s) f) = Some (skipn (a_ln s) f, [])).
   { intros d. apply run_plain. pose proof (f_plain _ _ Hf) as H. rewrite Forall_forall in *. intros y I. apply H.
